@@ -46,6 +46,14 @@ def lex(src):
     return out
 
 
+LEAN_KEYWORDS = {"end", "from", "at", "by", "do", "fun", "have", "show", "then", "else", "with", "in", "open", "where", "at", "mut", "section", "namespace", "instance", "structure", "class", "theorem", "def", "let", "match", "if", "return", "for", "unless", "macro", "syntax", "deriving", "variable", "universe", "export", "import", "private", "protected", "local", "set_option", "attribute", "example", "abbrev", "inductive", "axiom", "using", "infix", "notation", "prefix", "postfix", "calc", "suffices", "obtain", "exact", "nomatch", "nofun"}
+
+
+def lean_id(name):
+    """a Rust identifier as a Lean identifier"""
+    return name + "_" if name in LEAN_KEYWORDS else name
+
+
 INT_T = {"u8": 8, "u16": 16, "u32": 32, "u64": 64, "u128": 128, "usize": 64}
 ATOMIC = {"AtomicU8": "u8", "AtomicU64": "u64", "AtomicUsize": "usize"}
 
@@ -70,7 +78,7 @@ class P:
         self.i += 1
         return v
 
-    BIN = {"||": 1, "&&": 2, "==": 3, "!=": 3, "<": 3, "<=": 3, ">": 3, ">=": 3, "+": 5, "-": 5, "*": 6, "/": 6, "%": 6}
+    BIN = {"..": 0, "||": 1, "&&": 2, "==": 3, "!=": 3, "<": 3, "<=": 3, ">": 3, ">=": 3, "+": 5, "-": 5, "*": 6, "/": 6, "%": 6}
 
     def expr(self, minp=0, nostruct=False):
         e = self.unary(nostruct)
@@ -441,6 +449,7 @@ class Gen:
         self.struct, self.fields, self.consts, self.ignore = struct, dict(fields), consts, ignore_calls
         self.inline, self.inline_expr, self.default_of, self.enums, self.free_fns = {}, {}, {}, {}, {}
         self.fvar = "o"
+        self.return_hook = None
         self.field_map = field_map or {}
 
     def ftype(self, f):
@@ -701,6 +710,16 @@ class Gen:
                 # a guard inside an arm only applies when that arm is taken
                 gs = gs + [f"({s} → {x})" for x in g1] + [f"(¬ {s} → {x})" for x in g2]
                 return gs, f"(if {s} then {t1} else {t2})", ty1
+            if all(p[0] == "penum" and not p[2] for p in pats) and ty in self.enums:
+                if sorted(p[1][1] for p in pats) != sorted(v for v, _ in self.enums[ty]) or any(p[1][0] != ty for p in pats):
+                    raise Fail(f"match on {ty} is not exhaustive over its declared variants")
+                out, rty = [], None
+                for pat, body in arms:
+                    gb, tb2, tyb = self.expr(body, env)
+                    gs = gs + [f"({s} = .{pat[1][1]} → {x})" for x in gb]     # a guard inside an arm applies when that arm is taken
+                    rty = tyb if rty is None else rty
+                    out.append(f"| .{pat[1][1]} => {tb2}")
+                return gs, f"(match {s} with {' '.join(out)})", rty
             if all(p[0] == "ptuple" for p in pats) and e[1][0] == "tuple" and all(len(p[1]) == len(e[1][1]) for p in pats):
                 scr = [self.expr(x, env) for x in e[1][1]]
                 gs = [g for (g, _, _) in scr for g in g]
@@ -821,19 +840,19 @@ class Gen:
         if k == "let":
             g, t, ty = self.expr(s[2], env)
             env2 = dict(env)
-            env2[s[1]] = (s[1], ty)
-            return self.guard(g, f"{ind}let {s[1]} := {t}\n" + nxt(env2), ind)
+            env2[s[1]] = (lean_id(s[1]), ty)
+            return self.guard(g, f"{ind}let {lean_id(s[1])} := {t}\n" + nxt(env2), ind)
         if k == "lettuple":
             g, t, ty = self.expr(s[2], env)
             if not (isinstance(ty, tuple) and ty[0] == "tuple" and len(ty[1]) == len(s[1])):
                 raise Fail("tuple pattern against a non-tuple")
             env2 = dict(env)
             for n, tt in zip(s[1], ty[1]):
-                env2[n] = (n, tt)
+                env2[n] = (lean_id(n), tt)
             if len(s[1]) != 2:
                 raise Fail("only pairs are destructured")
             tmp = "p_" + "_".join(s[1])
-            return self.guard(g, f"{ind}let {tmp} := {t}\n{ind}let {s[1][0]} := {tmp}.1\n{ind}let {s[1][1]} := {tmp}.2\n" + nxt(env2), ind)
+            return self.guard(g, f"{ind}let {tmp} := {t}\n{ind}let {lean_id(s[1][0])} := {tmp}.1\n{ind}let {lean_id(s[1][1])} := {tmp}.2\n" + nxt(env2), ind)
         if k == "assign" and s[1][0] == "index":
             # v[i] = e : panics when i is out of bounds
             key = self.lhs_key(s[1][1])
@@ -920,6 +939,9 @@ class Gen:
             raise Fail(f"statement outside the translated subset: {e}")
         if k == "return" and s[1] is None:
             return self.ret("()", env, ind)
+        if k == "return" and self.return_hook is not None and self.return_hook(self, s[1], env) is not None:
+            g, t = self.return_hook(self, s[1], env)
+            return self.guard(g, self.ret(t, env, ind), ind)
         if k == "return":
             g, t, ty = self.expr(s[1], env)
             return self.guard(g, self.ret(t, env, ind), ind)
@@ -1162,6 +1184,59 @@ def main():
                     lambda e2, i2: (_ for _ in ()).throw(Fail("FormattedDuration::fmt: control reaches the end")))
     o.append("/-- `<FormattedDuration as Display>::fmt`: the text written, as pieces; `secs` is `self.0.as_secs()` -/\n"
              "def formattedDuration (secs : Nat) : List FmtPiece :=\n" + code + "\n")
+    # ---- style.rs: the integer skeleton of `PaddedStringDisplay::fmt`
+    sty0 = open(os.path.join(repo, "src/style.rs")).read()
+    m = re.search(r"enum\s+Alignment\s*\{([^}]*)\}", sty0)
+    if not m:
+        raise Fail("enum Alignment not found")
+    avars = [v.strip() for v in strip_comments(m.group(1)).split(",") if v.strip()]
+    if sorted(avars) != ["Center", "Left", "Right"]:
+        raise Fail(f"enum Alignment has variants {avars}")
+    o.append("/-- `enum Alignment` of src/style.rs -/\ninductive Alignment where\n" + "".join(f"  | {v}\n" for v in avars) + "deriving Repr, DecidableEq\n")
+    o.append("/-- what `PaddedStringDisplay::fmt` writes: the whole string, the byte slice `start..end` of it (the whole string when that is\n"
+             "not a valid slice), or the string between `left` and `right` spaces -/\n"
+             "inductive PadAction where\n  | Whole\n  | Slice (start stop : Nat)\n  | Pad (left right : Nat)\nderiving Repr, DecidableEq\n")
+    params, ret, body = find_fn(sty0, r"fmt::Display\s+for\s+PaddedStringDisplay<'_>", "fmt")
+    body_nc = strip_comments(body)
+    cut = re.search(r"\n\s*for\s+_\s+in\s+0\s*\.\.\s*left_pad", body_nc)
+    tail_ok = re.search(r"for\s+_\s+in\s+0\s*\.\.\s*left_pad\s*\{\s*f\.write_char\(' '\)\?;\s*\}\s*f\.write_str\(self\.str\)\?;\s*"
+                        r"for\s+_\s+in\s+0\s*\.\.\s*right_pad\s*\{\s*f\.write_char\(' '\)\?;\s*\}\s*Ok\(\(\)\)\s*$", body_nc)
+    if not (cut and tail_ok):
+        raise Fail("PaddedStringDisplay::fmt: the padding tail (left_pad spaces, the string, right_pad spaces) was not recognised")
+    def pad_return(gen, e, env):
+        # f.write_str(self.str)  |  f.write_str(self.str.get(a..b).unwrap_or(self.str))
+        if not (e[0] == "mcall" and e[1] == ("var", "f") and e[2] == "write_str" and len(e[3]) == 1):
+            raise Fail("PaddedStringDisplay::fmt: unexpected return expression")
+        a = e[3][0]
+        strf = ("field", ("var", "self"), "str")
+        if a == strf:
+            return [], ".Whole"
+        if (a[0] == "mcall" and a[2] == "unwrap_or" and a[3] == [strf] and a[1][0] == "mcall" and a[1][2] == "get" and a[1][1] == strf
+                and len(a[1][3]) == 1 and a[1][3][0][0] == "bin" and a[1][3][0][1] == ".."):
+            g1, t1, _ = gen.expr(a[1][3][0][2], env)
+            g2, t2, _ = gen.expr(a[1][3][0][3], env)
+            return g1 + g2, f"(.Slice {t1} {t2})"
+        raise Fail("PaddedStringDisplay::fmt: unexpected return expression")
+    g5 = Gen("PaddedStringDisplay", [], {}, set())
+    g5.out_fields, g5.return_hook = "opt", pad_return
+    g5.enums = {"Alignment": [(v, []) for v in avars]}
+    g5.free_fns = {"measure_text_width": ("id_cols", [("s", "str")], "usize")}
+    env5 = {"self.width": ("width", "usize"), "self.truncate": ("truncate", "bool"), "self.align": ("align", "Alignment"),
+            "self.str.len": ("len", "usize"), "self.str": ("cols", "usize")}
+    # `measure_text_width(self.str)` is the argument `cols`, `self.str.len()` the argument `len`
+    st5 = P(lex(body_nc[:cut.start()].replace("measure_text_width(self.str)", "self.str"))).stmts() + [("tail", ("call", ["PadAction", "Pad"], [("var", "left_pad"), ("var", "right_pad")]))]
+    g5_call = Gen.expr
+    def expr5(self, e, env, _orig=Gen.expr):
+        if e[0] == "call" and e[1] == ["PadAction", "Pad"]:
+            g1, t1, _ = _orig(self, e[2][0], env)
+            g2, t2, _ = _orig(self, e[2][1], env)
+            return g1 + g2, f"(.Pad {t1} {t2})", "PadAction"
+        return _orig(self, e, env)
+    g5.expr = lambda e, env: expr5(g5, e, env)
+    code = g5.block(st5, env5, "  ", lambda e2, i2: (_ for _ in ()).throw(Fail("PaddedStringDisplay::fmt: control reaches the end")))
+    o.append("/-- `<PaddedStringDisplay as Display>::fmt`, the integer skeleton: `cols` is `measure_text_width(self.str)`, `len` is `self.str.len()`\n"
+             "(bytes); `none` = panic (the byte arithmetic of the truncating branch underflows) -/\n"
+             "def paddedFmt (cols len width : Nat) (truncate : Bool) (align : Alignment) : Option PadAction :=\n" + code + "\n")
     # ---- defaults of state.rs / style.rs
     ty, v = const_value(stt, "DEFAULT_TAB_WIDTH")
     o.append(f"/-- `DEFAULT_TAB_WIDTH: {ty}` of src/state.rs -/\ndef defaultTabWidth : Nat := {v}\n")
